@@ -12,7 +12,7 @@ import traceback
 from .index import AnalysisError, ProgramIndex
 from .report import Report, VIOLATED
 
-CLAIMED = ["C01", "C02", "C03", "C04", "C06", "C07", "C08", "C11", "C12", "C14", "C15", "C16", "C17", "C18", "C19", "C20"]
+CLAIMED = ["C%02d" % i for i in range(1, 21)]
 
 
 def build_index(repo: str) -> ProgramIndex:
